@@ -40,8 +40,16 @@ def design_checks(c):
         cfgs = [cfgs[c.seed % 2]]        # one of the two per quick run (they differ only in where the fees go)
     else:
         cfgs.append(("MC_Ledger_big.cfg", "Ledger design, 3 transactions per block"))
-    for cfg, what in cfgs:
-        c.require_ok(vlib.tlc(SPEC_DIR, "MC_Ledger", cfg, c.work, timeout=900), what)
+    # three blocks (register, hand over, use) of name-sender transactions; calls whose code pays the contract's balance out
+    cfgs.append(("MC_Ledger_names.cfg", "Ledger design, name senders over three blocks: NameSenderNeedsOwnerKey"))
+    cfgs.append(("MC_Ledger_drain.cfg", "Ledger design, calls that drain the called contract (fee payer left without coin)"))
+    import concurrent.futures
+    def one(x):                          # side by side, each in its own scratch copy of the specification
+        return vlib.tlc(SPEC_DIR, "MC_Ledger", x[0], os.path.join(c.work, "design_" + x[0][:-4]), workers=4, timeout=900)
+    with concurrent.futures.ThreadPoolExecutor(max_workers=len(cfgs)) as ex:
+        results = list(ex.map(one, cfgs))
+    for (cfg, what), res in zip(cfgs, results):
+        c.require_ok(res, what)
 
 
 def simulate(c, num, depth, seed):
@@ -109,8 +117,12 @@ def handmade():
              B, tx("nxfer2"), tx("nxfer3"), tx("nxfer2as1"), tx("nxfer1"), E,
              B, tx("nxfer1"), tx("nxfer2"), tx("nxfer3"), tx("nxfer1as2"), tx("nxfer2as1"), E]
     # the harness runs behaviour i under regime i mod len(REGIMES): the first scenario (every transaction kind, failures,
-    # replays, system failures) goes first, once per regime; then the name-sender scenario, once per regime
-    return [h[0]] * len(REGIMES) + [names] * len(REGIMES) + h[1:]
+    # replays, system failures) goes first, once per regime; then the name-sender scenario and the draining calls, once per regime each
+    # calls whose code pays the contract's balance out to the caller: fee-delegated (the contract, which pays the fee, is
+    # left with a few aer), plain, carrying an amount, in the block that brought the contract new coin, replayed
+    drain = [B, tx("deploy"), E, B, tx("callok"), E, B, tx("fddrain"), E, B, tx("callok"), tx("calldrain"), E, B, tx("fddrain3"), tx("fddrain3", "dup"), E,
+             B, tx("callok"), E, B, tx("calldrain2"), tx("fddrain"), E, B, tx("callok"), tx("fddrain3"), tx("fddrain", "replay"), tx("calldrain2", "replay"), E]
+    return [h[0]] * len(REGIMES) + [names] * len(REGIMES) + [drain] * len(REGIMES) + h[1:]
 
 
 def run_ledger(c, pid, behs, nshards=6, validators=2, gomaxprocs=None, timeout=1800, tag="L", blocks_out=False, blocks_in=None):
